@@ -37,6 +37,54 @@ pub fn soup(rng: &mut Rng, max: usize) -> String {
     s
 }
 
+/// multi-line shapes that are legal Markdown but unusual for a note: containers that start with containers, empty
+/// containers, markers on their own; concatenated at random (with random words)
+const SHAPES: &[&str] = &[
+    "- - W\n    - W\n\n  W\n",
+    "- - W\n- W\n",
+    "1. - W\n     - W\n\n   W\n2. W\n",
+    "- - W\n    > W\n\n  W\n",
+    "- - - W\n  - W\n",
+    "- 1)\n- W\n",
+    "- \n- W\n",
+    "1. \n\n   W\n",
+    "- > W\n\n  W\n",
+    "- > W\n  > - W\n\n  W\n",
+    "- ```\n  W\n  ```\n  W\n",
+    "- # W\n  W\n",
+    "- # W\n\n  ## W\n\n  W\n- W\n",
+    "> - W\n>\n>   W\n> - W\n",
+    "> > W\n>\n> W\n",
+    "> # W\n>\n> - W\n>   - W\n",
+    ">\n> W\n",
+    "# W\n\n---\n\nW\n\n# W\n",
+    "# W\n\n- W\n\n## W\n\n- W\n\n# W\n",
+    "#\n##\n1)\n#\n",
+    "- W\n\n  | W | W |\n  |---|---|\n  | W | W |\n\n  W\n",
+    "- | W |\n  |---|\n",
+    "[W](n2)\n\n# W\n\n[W](n2)\n[W](n2)\n",
+    "- [W](n2)\n\n  [W](n2)\n",
+    " <div>\nW\n</div>\n",
+    "W\n===\nW\n---\n",
+    "* * *\n- - -\n",
+];
+
+pub fn shapes(rng: &mut Rng, max: usize) -> String {
+    let mut s = String::new();
+    let mut n = 0;
+    for _ in 0..rng.range(1, max) {
+        let t = *rng.pick(SHAPES);
+        for part in t.split('W') {
+            s.push_str(part);
+            n += 1;
+            s.push_str(&format!("w{}", n));
+        }
+        // the split leaves one word too many at the end of each shape: harmless (a trailing word)
+        s.push_str(if rng.chance(1, 2) { "\n\n" } else { "\n" });
+    }
+    s
+}
+
 fn mutate(rng: &mut Rng, text: &str) -> String {
     let mut chars: Vec<char> = text.chars().collect();
     for _ in 0..rng.range(1, 8) {
@@ -253,7 +301,8 @@ impl Check for C03 {
             return self.ramp_case(tier, case - (total - n_ramp), n_ramp, &mut rng, rep);
         }
         let (class, text) = match rng.below(10) {
-            0..=4 => ("soup", soup(&mut rng, 40)),
+            0..=2 => ("soup", soup(&mut rng, 40)),
+            3 | 4 => ("shapes", shapes(&mut rng, 6)),
             5 => ("soup-long", soup(&mut rng, 400)),
             6 | 7 => {
                 let mut words = Words::new("");
